@@ -111,6 +111,7 @@ Theorem c14_changed_in_effect_txn : forall hashf w c bo w1 ops w2 obs cl x pd us
   step hashf w (OReload (Valid c bo)) = (w1, ObReload (ROk true)) ->
   Forall (fun o => actor o <> None) ops -> run hashf w1 ops = (w2, obs) ->
   cl_lookup cl (clients w2) = Some x -> cheld x = None ->
+  existsb (key_eqb (cdb x, cuser x)) (paused w2) = false ->
   clookup (cdb x) (cpools c) = Some (pd, us) -> In (cuser x) us ->
   exists w3 p s f pd', step hashf w2 (OBegin cl) = (w3, ObBegun p s f) /\
     In {| sid := s; spool := p; sholder := Some cl |} (servers w3) /\
@@ -150,7 +151,7 @@ Print Assumptions c14_inflight_unbroken.
 Theorem c14_inflight_ends : forall hashf w c x s srv,
   cl_lookup c (clients w) = Some x -> cheld x = Some s -> In srv (servers w) -> sholder srv = Some c ->
   exists w', step hashf w (OEnd c) = (w', ObEnded) /\
-             cl_lookup c (clients w') = Some {| cdb := cdb x; cuser := cuser x; cclone := cclone x; cheld := None |} /\
+             cl_lookup c (clients w') = Some {| cdb := cdb x; cuser := cuser x; cclone := cclone x; cheld := None; ctmo := ctmo x |} /\
              (spool srv = cclone x -> In {| sid := sid srv; spool := spool srv; sholder := None |} (servers w')).
 Proof. exact inflight_end. Qed.
 Print Assumptions c14_inflight_ends.
@@ -159,7 +160,7 @@ Print Assumptions c14_inflight_ends.
     transaction of a client whose pool (or user) is not in the new configuration is answered
     "No pool configured", its task ends, and no server connection is opened or changes hands. *)
 Theorem c14_removed_pool_error : forall hashf w c bo w1 ops w2 obs cl x,
-  winv hashf w -> wf_cfg c ->
+  winv hashf w -> pinv w -> wf_cfg c ->
   step hashf w (OReload (Valid c bo)) = (w1, ObReload (ROk true)) ->
   Forall (fun o => actor o <> None) ops -> run hashf w1 ops = (w2, obs) ->
   cl_lookup cl (clients w2) = Some x -> cheld x = None ->
@@ -230,11 +231,78 @@ Theorem c14_mutant_store_first_refuted :
 Proof. exact store_first_refuted. Qed.
 Print Assumptions c14_mutant_store_first_refuted.
 
+(** "No transaction in progress is broken by a reload", settings included: the idle-in-transaction timeout of an
+    open transaction is the value read when its server was checked out.  Whatever reloads (and other clients'
+    steps) happen meanwhile, a silence of [ms] has the outcome it would have had before them ... *)
+Theorem c14_inflight_timeout_fixed : forall hashf l w w' obs c x s srv ms,
+  run hashf w l = (w', obs) -> Forall (fun o => actor o <> Some c) l ->
+  cl_lookup c (clients w) = Some x -> cheld x = Some s -> In srv (servers w) -> sholder srv = Some c ->
+  snd (step hashf w' (OIdle c ms)) = snd (step hashf w (OIdle c ms)).
+Proof. exact inflight_timeout_fixed. Qed.
+Print Assumptions c14_inflight_timeout_fixed.
+
+Theorem c14_idle_outcome : forall hashf w c x s ms,
+  cl_lookup c (clients w) = Some x -> cheld x = Some s ->
+  snd (step hashf w (OIdle c ms)) = if negb (ctmo x =? 0) && (ctmo x <=? ms) then ObTimedOut else ObIdled.
+Proof. exact idle_outcome. Qed.
+Print Assumptions c14_idle_outcome.
+
+(** ... in particular a transaction that started without a timeout, or stays below the one it started with,
+    is untouched by any silence, however low the timeout of the file loaded meanwhile. *)
+Theorem c14_idle_within_is_noop : forall hashf w c x s ms, settled w ->
+  cl_lookup c (clients w) = Some x -> cheld x = Some s -> (ctmo x = 0 \/ ms < ctmo x) ->
+  step hashf w (OIdle c ms) = (w, ObIdled).
+Proof. exact idle_within_is_noop. Qed.
+Print Assumptions c14_idle_within_is_noop.
+
+(** New transactions get the new value: the one of the configuration in force when they start. *)
+Theorem c14_begin_reads_timeout : forall hashf w c x w' p s f,
+  cl_lookup c (clients w) = Some x -> step hashf w (OBegin c) = (w', ObBegun p s f) ->
+  exists y, cl_lookup c (clients w') = Some y /\ ctmo y = cidle (config (st w)) /\ cheld y = Some s.
+Proof. exact begin_reads_timeout. Qed.
+Print Assumptions c14_begin_reads_timeout.
+
+(** Removal does not depend on the pause flag: a reload step reads and writes the store and the id supply only;
+    after Ok(true) every pool that is not registered any more is resumed (so its waiting clients go on to
+    "No pool configured": c14_removed_pool_error, whose [pinv] premise holds in every run). *)
+Theorem c14_reload_step_store : forall hashf w fo w' ob, step hashf w (OReload fo) = (w', ob) ->
+  exists s' r n' new, reload hashf (st w) fo (next_pool w) = (s', r, n', new) /\ st w' = s' /\ ob = ObReload r /\ next_pool w' = n'.
+Proof. exact reload_step_store. Qed.
+Print Assumptions c14_reload_step_store.
+
+Theorem c14_removed_are_resumed : forall hashf w fo w1, step hashf w (OReload fo) = (w1, ObReload (ROk true)) ->
+  forall k, has_pool (st w1) k = false -> ~ In k (paused w1).
+Proof. exact removed_are_resumed. Qed.
+Print Assumptions c14_removed_are_resumed.
+
+Theorem c14_pinv_every_run : forall hashf ops w obs, run hashf empty_world ops = (w, obs) -> pinv w.
+Proof. exact pinv_every_run. Qed.
+Print Assumptions c14_pinv_every_run.
+
+(** Mutants 2 and 3 (Mutants.v) refuted: the timeout looked up at every wait breaks the open transaction; a paused
+    pool kept registered across its removal still resolves. *)
+Theorem c14_mutant_idle_live_refuted :
+  exists w, fst (run idh empty_world idle_ops) = w /\
+            snd (run idh empty_world idle_ops) = [ObReload (ROk true); ObConnected 0; ObBegun 0 0 false; ObReload (ROk true)] /\
+            snd (step idh w (OIdle 0 400)) = ObIdled /\ idle_live w 0 400 = ObTimedOut /\
+            snd (run idh w [OEnd 0; OBegin 0; OIdle 0 400]) = [ObEnded; ObBegun 0 0 false; ObTimedOut].
+Proof. exact idle_live_refuted. Qed.
+Print Assumptions c14_mutant_idle_live_refuted.
+
+Theorem c14_mutant_keep_paused_refuted :
+  exists w, run idh empty_world pause_ops =
+              (w, [ObReload (ROk true); ObConnected 0; ObAdmin true; ObReload (ROk true); ObNoPool; ObNoPool]) /\
+            paused w = [] /\ begin_txn (st w) 0 0 = None /\
+            plookup (0, 0) (keep_paused [(0, 0)] [((0, 0), (10, 0)); ((1, 0), (20, 1))] (pools (st w))) = Some (10, 0) /\
+            clookup 0 (cpools (config (st w))) = None.
+Proof. exact keep_paused_refuted. Qed.
+Print Assumptions c14_mutant_keep_paused_refuted.
+
 (** ------------------------------------------------------------------ non-vacuity *)
 
-Definition ex_c0 : cfg := {| cgen := 1; cpools := [(0, (10, [0])); (1, (20, [0]))] |}.
-Definition ex_c1 : cfg := {| cgen := 1; cpools := [(0, (10, [0])); (1, (21, [0])); (2, (30, [0]))] |}.   (* 0 unchanged, 1 changed, 2 added *)
-Definition ex_c2 : cfg := {| cgen := 1; cpools := [(0, (10, [0])); (2, (30, [0]))] |}.                    (* 1 removed *)
+Definition ex_c0 : cfg := {| cgen := 1; cidle := 0; cpools := [(0, (10, [0])); (1, (20, [0]))] |}.
+Definition ex_c1 : cfg := {| cgen := 1; cidle := 0; cpools := [(0, (10, [0])); (1, (21, [0])); (2, (30, [0]))] |}.   (* 0 unchanged, 1 changed, 2 added *)
+Definition ex_c2 : cfg := {| cgen := 1; cidle := 0; cpools := [(0, (10, [0])); (2, (30, [0]))] |}.                    (* 1 removed *)
 Definition ex_ok := bo_of [] [].
 
 (** wf_cfg, all_built and "changed" are satisfiable together *)
@@ -243,14 +311,14 @@ Proof. repeat split; try reflexivity. unfold wf_cfg. cbn. repeat constructor; cb
 
 (** reordering the pools of a file is not a change (HashMap equality) *)
 Example ex_reordered_equal :
-  cfg_eqb ex_c0 {| cgen := 1; cpools := [(1, (20, [0])); (0, (10, [0]))] |} = true.
+  cfg_eqb ex_c0 {| cgen := 1; cidle := 0; cpools := [(1, (20, [0])); (0, (10, [0]))] |} = true.
 Proof. reflexivity. Qed.
 
 (** a change of [general] alone makes reload run from_config, which reuses every pool object *)
 Example ex_general_only :
   fst (fst (fst (reload idh {| config := ex_c0; pools := [((0, 0), (10, 0)); ((1, 0), (20, 1))] |}
-                        (Valid {| cgen := 2; cpools := cpools ex_c0 |} ex_ok) 2)))
-  = {| config := {| cgen := 2; cpools := cpools ex_c0 |}; pools := [((0, 0), (10, 0)); ((1, 0), (20, 1))] |}.
+                        (Valid {| cgen := 2; cidle := 0; cpools := cpools ex_c0 |} ex_ok) 2)))
+  = {| config := {| cgen := 2; cidle := 0; cpools := cpools ex_c0 |}; pools := [((0, 0), (10, 0)); ((1, 0), (20, 1))] |}.
 Proof. reflexivity. Qed.
 
 (** the situations of the property text in one run: two clients mid-transaction across a reload that
